@@ -54,6 +54,7 @@ type Val struct {
 	Fn     *FnRef
 	Origin *Addr
 	GT     types.Type
+	FnK    string // contract key of a function-typed parameter this value was loaded from
 }
 
 func tv(t, s string) Val { return Val{T: t, S: s} }
